@@ -16,7 +16,8 @@ claim(
     "C07); fill hands the caller's weight to exactly the specified slots (shared rule of C02: additivity of fill over chunks); "
     "a + b, += and zero() of partials reloaded from JSON keep what only ed() establishes (shared rule of C04); "
     "what fill leaves in mean/variance for every (state class x datum class) pair is what merging the one-datum partials leaves (shared rule of C02); "
-    "a dictionary accumulator (Bag.values) is merged key by key to self[k] + other[k] / other[k] (per-key evaluation); "
+    "a dictionary accumulator (Bag.values) is merged key by key to self[k] + other[k] / other[k] (per-key evaluation); Python's builtin min/max is never applied to the "
+    "NaN-capable extremum of Minimize/Maximize; "
     "defs.combine/increment. Necessary conditions of the property; data-dependent key sets under fill and "
     "floating-point rounding are NOT decided.",
     "Identities are over the reals; formula extraction follows the branch selected by the stated scenario (finite datum, "
@@ -57,7 +58,8 @@ claim(
     "against the confirmed table; template instantiation in fill/_numpy is fresh per slot; quantity names are written only "
     "on objects fresh out of ed(); mutable default arguments are never written and never become object state anywhere in the "
     "package; the plotting mixins are analysed with the field shapes of their host primitive and the projections they build "
-    "hold only fresh counters; two child slots of one object never receive the same object (chained assignment, slot-to-slot store, one local stored twice). "
+    "hold only fresh counters; two child slots of one object never receive the same object (chained assignment, slot-to-slot store, one local stored twice); "
+    "a += b keeps nothing borrowed from b (shared rule of C07). "
     "Run-time object graphs built by user code are NOT decided.",
     "Induction hypothesis: +, *, zero(), copy() of a child aggregator return fresh objects (the same rule is checked on every "
     "class). Flow-insensitive joins make the analysis conservative.",
@@ -84,7 +86,7 @@ claim(
     "multiplied by the factor, intensive ones copied; __rmul__ delegates; stores keep the container kind fixed by __init__ "
     "wherever the class uses the field kind-sensitively (tuple concat, hash, item assignment); Count refuses a non-identity "
     "transform first; a slot that __init__ mirrors into per-element attributes (Branch.i0..iN) is only ever set by __init__; "
-    "the children of h*f are fresh objects (shared rule of C06); structural parameters and the bin template of h*f are h's own. Numeric identities under rounding are NOT decided.",
+    "the children of h*f are fresh objects (shared rule of C06); structural parameters and the bin template of h*f are h's own; a positive factor never returns the empty aggregator on any returning path; the child keys of h*f are h's own keys. Numeric identities under rounding are NOT decided.",
     "The degree assignment must be the unique consistent one; otherwise ANALYSIS-ERROR.",
     "DESIGN.md section 3, C08",
 )
@@ -94,7 +96,7 @@ claim(
     "over the CFG + evaluation-order isinstance check + shape check of numeq",
     "Decides which fields == can see: every field that toJsonFragment serialises flows from both operands into a "
     "content-sensitive comparison not under `or`; iterating/sorting a dict compares keys only and does not count; zip counts "
-    "only with a length equality (so do elements obtained by iterating one operand only), and a proper slice or one attribute of a child (`self.denominator.entries`) or of an element of a child container (`v1.entries`) does not count as the whole field; the quantity whose name is serialised "
+    "only with a length equality (so do elements obtained by iterating one operand only), and a proper slice or one attribute of a child (`self.denominator.entries`) or of an element of a child container (`v1.entries`) does not count as the whole field; in loop-free bodies every accepting return has passed the comparison of every field the function compares by name; the quantity whose name is serialised "
     "takes part in == and UserFcn.__eq__ depends on name and expr on every path; NaN-initialised fields go through numeq; isinstance(other, K) precedes any read of other; "
     "__ne__ negates ==; numeq has the NaN/inf/guarded-widening-tolerance/exact-fallback shape (decision table over IEEE classes; every "
     "positive-tolerance return is the symmetric `abs(x - y) <= bound`, through tolerance-derived locals as well). Equality of clones is NOT "
@@ -126,7 +128,7 @@ claim(
     "by membership only; the branches of Bin/CentrallyBin/Count._numpy selected by `transform is identity` (the unpickled clone takes the "
     "general one) have the same effect (shared rules of C03); UserFcn.__eq__ compares function quantities by code and names only (values whose == "
     "survives a copy); a string quantity keeps no per-record state in its unpickled closure (shared rule of C17); fill.numpy never writes into the caller's "
-    "arrays, so clone and original handed one batch see the same batch (shared rule of C03). Fidelity of "
+    "arrays, so clone and original handed one batch see the same batch (shared rule of C03); the references captured for a function override util's own globals in the rebuilt namespace. Fidelity of "
     "marshal-ed code and liveness/equality of the clone are NOT decided.",
     "pickle's protocol itself is trusted.",
     "DESIGN.md section 3, C11",
@@ -137,7 +139,7 @@ claim(
     "Decides the ordering clause on every path of all 19 fill(): after the node's own state changed, no user function, "
     "child fill, raising helper, explicit raise, computed index or operation on a not-yet-validated user value can follow; "
     "single-path containers fill at most one child per path (induction step for ancestors); the repository's own rollback "
-    "marker comment never follows an own-state store; conversion helpers that fill relies on as validators let the conversion error escape; a string quantity is evaluated in a namespace built for the record alone and a cached quantity that raises leaves no memo behind (shared rules of C17). Run-time exception behaviour is NOT executed; numpy paths are outside "
+    "marker comment never follows an own-state store; conversion helpers that fill relies on as validators let the conversion error escape; a string quantity is evaluated in a namespace built for the record alone and a cached quantity that raises leaves no memo behind (shared rules of C17); a value returned by the user's function is stored into own state only where its type has been validated, and no handler around a child fill or user call swallows the failure. Run-time exception behaviour is NOT executed; numpy paths are outside "
     "the property.",
     "A user value counts as validated only by an isinstance test against numbers.Real or narrower (or a string type): "
     "math.isnan/isinf, arithmetic and comparisons on a validated numbers.Real, and membership/store on the node's own dict "
@@ -158,7 +160,7 @@ claim(
     "correction with one predicate; grid cells are addressed by positions of a dense index range or by lookup in the axis' key list; no view "
     "takes the length of an array from np.arange over float arguments; the accessors return an empty result for the same out-of-domain queries; an "
     "edge `i * width + origin` takes width and origin from one histogram; an index that may be the negative 'no bin' sentinel is range-checked before it "
-    "addresses a list of children; range(i) is (E(i), E(i+1)) for one float expression E. Sub-range numerics (rounding, arange "
+    "addresses a list of children; range(i) is (E(i), E(i+1)) for one float expression E; a loop index over the outer/nested bins of a 2-D view is bounded by the same histogram's bin count. Sub-range numerics (rounding, arange "
     "lengths) and mpv are NOT decided.",
     "IrregularlyBin.fill routes inline, so there is no shared routing function to compare with for that class.",
     "DESIGN.md section 3, C13",
@@ -171,7 +173,7 @@ claim(
     "get_features_specs whole (not through a filtering comprehension) and make_histograms forwards its specification parameters; every "
     "nesting primitive built in get_hist_bin receives the histogram built so far and the axis' quantity; every bin-spec key set produced anywhere "
     "is accepted by a branch of get_hist_bin; _fill_histogram fills through hist.fill.numpy; given specs are never overwritten; a "
-    "function that takes an axis index reads its column list with that index; no freshly indexed Series is assigned into the frame; the timestamp converter to_ns returns an integer on every path; the working frame process_features returns is never stored into by the functions it is handed to; the result of an empty-means-all column helper is consumed through the caller's own list. The homomorphism over row chunks, "
+    "function that takes an axis index reads its column list with that index; no freshly indexed Series is assigned into the frame; the timestamp converter to_ns returns an integer on every path; the working frame process_features returns is never stored into by the functions it is handed to; the result of an empty-means-all column helper is consumed through the caller's own list; both spellings of an aliased bin-spec key are read wherever one of them is. The homomorphism over row chunks, "
     "dtype inference and quantiles are run-time and NOT decided.",
     "Only the pandas filler is followed (spark is not importable here and is outside the property's environment).",
     "DESIGN.md section 3, C14",
@@ -186,7 +188,7 @@ claim(
     "built without raise, every JSON value is used only under a type validation that agrees with the use, ed() "
     "re-validates ranges, header/version/unknown-type gates raise and the version gate is monotone in the document's version, every key that is read reaches the field it was written from (shared rule of C04), every child fragment is parsed by the factory of its own "
     "type tag (shared rule of C04), every gated key of the fragment is read on every path to a successful return, no document-derived dict is splatted into "
-    "named parameters (shared rule of C04). This is the structural clause of the property "
+    "named parameters (shared rule of C04), the negative-entries check of ed() dominates every normal return. This is the structural clause of the property "
     "(every failed validation ends in raise; nothing dropped, duplicated or defaulted); behaviour of fromJson on "
     "concrete documents is not executed.",
     "Assumes an unbound local raises, Factory.registered[x] raises for unknown x, child readers validate their own "
@@ -200,7 +202,7 @@ claim(
     "`children` reads every stored slot fill/_numpy fill; in the walk the identity test and raise must not be "
     "control-dependent on the once-only flag the same traversal sets - this last clause fails on today's tree and is "
     "recorded as a known finding; the once-only flag is stored after the recursion into the children; outside the _numpy methods every "
-    "use of `<x>._numpy` is dominated by a call of the walk; the flag is not stored on the failure path; `children` lists every filled slot on every branch; __hash__ of a primitive with a bin template does not read the template (the walk's memo hashes every node). Detection on concrete trees is NOT executed.",
+    "use of `<x>._numpy` is dominated by a call of the walk; the flag is not stored on the failure path; `children` lists every filled slot on every branch; __hash__ of a primitive with a bin template does not read the template (the walk's memo hashes every node); an identity test that runs on every visit does not follow `children` into shared templates. Detection on concrete trees is NOT executed.",
     "none beyond the class model.",
     "DESIGN.md section 3, C16",
 )
@@ -215,7 +217,7 @@ claim(
     "namespace that is fresh per call and in which the record's fields take precedence over pre-loaded names, and discovers the free "
     "variable of a bare-datum expression as exactly (names of the code object) minus (names the namespace provides), and takes a record's fields unfiltered; "
     "the wrapper functions never assign attributes of the wrapper they are given; UserFcn.__init__ stores a derived name only when no name was given; the "
-    "evaluation namespace is pre-loaded with all public names of math (no filter but a leading-underscore test). What string expressions "
+    "evaluation namespace is pre-loaded with all public names of math (no filter but a leading-underscore test) and eval takes that one namespace (no separate locals mapping). What string expressions "
     "evaluate to is NOT decided.",
     "none beyond the class model.",
     "DESIGN.md section 3, C17",
@@ -229,7 +231,7 @@ claim(
     "1-3 thresholds/centres quick, 0-5 thorough) equals the specified table; the generic-case accumulator updates equal the "
     "specified functions as rational functions; Minimize/Maximize follow the min/max-ignoring-NaN decision table; a float-class "
     "interpretation of Average.fill and Deviate.fill over (empty|finite|+inf|-inf|NaN state) x (finite|+inf|-inf|NaN datum) "
-    "yields the IEEE class of the weighted mean/variance of those data (opposite infinities -> NaN); every child fill is handed the caller's datum itself; the index formula of bin() inverts the edge function of range() (rational identity). Every statement of every fill must be reached by some scenario. NOT decided: "
+    "yields the IEEE class of the weighted mean/variance of those data (opposite infinities -> NaN); every child fill is handed the caller's datum itself; the index formula of bin() inverts the edge function of range() (rational identity) and is the floating-point expression the vectorised path computes (shared rule of C03). Every statement of every fill must be reached by some scenario. NOT decided: "
     "that the opaque in-range index arithmetic picks the numerically right bucket for every float; floating-point summation "
     "order; what user functions return.",
     "Exact abstraction for comparison-only code (two data in one region take the same path). Library summaries are listed in "
@@ -252,7 +254,8 @@ claim(
     "rounding); numpy.average over a batch is guarded by a test that implies a positive batch weight (linear forms over prior entries and "
     "batch weight); a Count child is handed the batch only once the batch length is known (the shared shape cell is modelled); every child "
     "_numpy is handed the caller's data (or None for a pre-summed Count, or a row selection of it); every range test on the real-valued sparse "
-    "index in bin() has a counterpart on the float index in _numpy before the integer cast. One known "
+    "index in bin() has a counterpart on the float index in _numpy before the integer cast; every site that hands a child an aggregated weight is controlled by `transform is identity`, "
+    "and Count._numpy transforms only the rows whose weight is > 0. One known "
     "finding (Sum masks NaN rows). NOT decided: equality of floating-point reductions, key creation order, negative weights.",
     "numpy/bisect library summaries (np.histogram edge conventions, np.unique partition, int64 cast of NaN/inf) are stated "
     "assumptions; every numpy operation used must be in the closed vocabulary (else ANALYSIS-ERROR).",
@@ -268,7 +271,7 @@ claim(
     "child sequence is never indexed by an unclamped float-derived index (scalar and vectorised); __mul__ implements the "
     "scaling table derived from fill; a numeric datum never makes fill raise; no node writes into the weight/data arrays its "
     "siblings also use and child += other_child updates the child (shared rules of C03/C07); Bag keys are normalised so that equal data share "
-    "one key (shared rule of C02); a Count child of a collection sees the batch length and a Count handed a scalar weight and a known length grows by weight x rows (shared rules of C03); the vectorised entry point hands only positive-or-zero weights to the tree (rows whose weight is not > 0 are skipped as in fill). NOT decided: that floats adjacent to an edge land in the numerically right bin, and "
+    "one key (shared rule of C02); a Count child of a collection sees the batch length and a Count handed a scalar weight and a known length grows by weight x rows (shared rules of C03); the vectorised entry point hands only positive-or-zero weights to the tree (rows whose weight is not > 0 are skipped as in fill); a + b, h * f and zero() share no child with their operands (shared rule of C06). NOT decided: that floats adjacent to an edge land in the numerically right bin, and "
     "sums up to rounding; invariants through + and += are the structural clauses of C01/C07.",
     "Same assumptions as C02/C03.",
     "DESIGN.md sections 2.4 and 3, C05",
